@@ -61,15 +61,35 @@ fn results(rng: &mut Rng) -> Vec<Option<DhtNetworkResult>> {
     ]
 }
 
+/// Identifiers are remote-chosen strings: any valid UTF-8 of any length. 40% stay what the crate itself
+/// generates (ASCII hex); the rest are empty, short multi-byte, an ASCII run followed by one 2-4 byte
+/// character (a character covering every small byte offset) or very long
+fn hostile_id(rng: &mut Rng) -> String {
+    let glyphs = ["\u{e9}", "\u{20ac}", "\u{1d11e}", "\u{0}", "a", "Z", "9", "-", "\u{202e}", "\u{df}"];
+    match rng.below(10) {
+        0 => String::new(),
+        1 | 2 => (0..rng.urange(1, 12)).map(|_| *rng.pick(&glyphs)).collect(),
+        3 | 4 => {
+            let mut s: String = "0123456789abcdef0123456789abcdef01234567"[..rng.urange(0, 40)].to_string();
+            let wide: [&str; 3] = ["\u{e9}", "\u{20ac}", "\u{1d11e}"];
+            s.push_str(wide[rng.usize_below(3)]);
+            s.push_str("-tail");
+            s
+        }
+        5 => "9".repeat(rng.urange(100, 5000)),
+        _ => format!("{:032x}", rng.next_u64()),
+    }
+}
+
 fn valid_dht_messages(rng: &mut Rng, claimed_from: &str) -> Vec<Vec<u8>> {
     let mut out = Vec::new();
     let rs = results(rng);
     for op in ops(rng) {
         for mt in [DhtMessageType::Request, DhtMessageType::Response, DhtMessageType::Broadcast, DhtMessageType::Error] {
             let m = DhtNetworkMessage {
-                message_id: format!("{:032x}", rng.next_u64()),
+                message_id: hostile_id(rng),
                 source: claimed_from.to_string(),
-                target: if rng.chance(0.5) { Some("t".into()) } else { None },
+                target: if rng.chance(0.5) { Some(if rng.chance(0.5) { "t".into() } else { hostile_id(rng) }) } else { None },
                 message_type: mt,
                 payload: op.clone(),
                 result: rs[rng.usize_below(rs.len())].clone(),
@@ -477,7 +497,17 @@ async fn dht_handler_direct(mon: &Monitor, rng: &mut Rng, rounds: u64) {
             let mk = MUTS[(i + round as usize) % MUTS.len()];
             let input = mutate(rng, inner, mk, &msgs[(i + 5) % msgs.len()]);
             let scope = AllocScope::begin();
-            let r = x.mgr.handle_dht_message(&input, &sender).await;
+            // the handler runs on this task: a panic inside it must become a verdict, not end the harness
+            let r = match futures::FutureExt::catch_unwind(std::panic::AssertUnwindSafe(x.mgr.handle_dht_message(&input, &sender))).await {
+                Ok(r) => r,
+                Err(_) => {
+                    let _ = scope.end();
+                    let what = vkit::take_last_panic().unwrap_or_default();
+                    let class = if what.contains("char boundary") { "string-slice-off-a-char-boundary" } else { "other" };
+                    mon.violation(&format!("panic/handle_dht_message/{class}"), json!({"panic": what.replace('\0', "\\0"), "mutation": format!("{mk:?}"), "len": input.len()}));
+                    continue;
+                }
+            };
             let st = scope.end();
             mon.eval();
             mon.case(("handler", mk, r.is_ok(), input.len() > 65536));
